@@ -42,10 +42,8 @@ def newRP (origin : Bytes) : Prog RP := do
   let id ← rpId origin
   pure ⟨origin, id⟩
 
-def askClientData (raw : Bytes) : Prog (Option ClientData) := do
-  match ← query (.clientData raw) with
-  | .clientData c => pure (some c)
-  | _ => pure none
+/-- `UnmarshalClientData`: `json.Unmarshal(raw, &CollectedClientData)` — decided by the Lean model of encoding/json -/
+def askClientData (raw : Bytes) : Prog (Option ClientData) := pure (Json.clientData raw)
 
 /-! ### authentication -/
 
